@@ -208,6 +208,27 @@ impl Prop for C05 {
         for _ in 0..rng.below(3) {
             ops.push(AppOp::Read);
         }
+        // the application also writes while it reads (a request, a fresh handshake to change
+        // flags): frames already received must not be affected by that
+        if rng.chance(1, 5) {
+            let mut stats2 = GenStats::default();
+            for _ in 0..rng.usize(1, 3) {
+                if rng.chance(1, 2) {
+                    let mut f = vec![0u8; 44];
+                    f[0] = mode.size_byte(44);
+                    f[1] = 1;
+                    f[2] = rng.byte();
+                    f[8] = 9;
+                    f[28] = b'x';
+                    if crate::model::ref_decode(mode, &f).is_pkt() {
+                        ops.push(AppOp::Handshake(f));
+                    }
+                } else {
+                    ops.push(AppOp::Write(gen::gen_out_frame(rng, mode, &mut stats2)));
+                }
+                ops.push(AppOp::Read);
+            }
+        }
         ops.push(AppOp::Drain {
             max: (frames.len() + errs + 4) as u32,
         });
@@ -321,6 +342,7 @@ impl Prop for C05 {
             "timeout_fired",
             "eof_inside_frame",
             "eof_at_frame_boundary",
+            "write_and_keepalive_same_run",
         ];
         if tier == Tier::Thorough {
             r.push("session_gt_3x_buffer");
